@@ -63,3 +63,15 @@ package usage
 //@   update carried = true
 //@ ensures [C19:the-option-never-fails-the-apply] result == nil
 //@ ensures [C19:a-usages-existing-owners-are-always-carried-over] (typeis(current, *composed.Unstructured) && as(current, *composed.Unstructured) != nil && $gvk == v1beta1.UsageGroupVersionKind && len(as(current, *composed.Unstructured).GetOwnerReferences()) > 0) ==> carried
+
+// C08 / C19 (a Usage waits for its using resource): resolving the selectors of a Usage never
+// drops the using resource it names - spec.by set on entry is still set afterwards - and a
+// selector that could not be resolved is an error, not a Usage without a using resource.
+//@ func (*usage.apiSelectorResolver).resolveSelectors
+//@ props C08 C19
+//@ requires r != nil && u != nil
+//@ ghost resolveFailed bool = false
+//@ optional site (*usage.apiSelectorResolver).resolveSelector(_, _, _, $rs)
+//@   update resolveFailed = resolveFailed || err != nil
+//@ ensures [C08,C19:a-usages-using-resource-is-never-dropped-by-selector-resolution] old(u.Spec.By) != nil ==> u.Spec.By != nil
+//@ ensures [C08,C19:an-unresolved-selector-is-an-error] resolveFailed ==> result != nil
